@@ -46,6 +46,12 @@ const (
 	OpCloseAll = "closeall" // Close every open iterator (first one first; last one first if Rev)
 	OpChurn    = "churn"    // (I mod 4)+1 rounds of [add range; remove range] over the N keys from Key, then add range once more
 	OpScan     = "scan"     // a fresh iterator is driven to the end (HasNext+Next) and compared with the live order, then closed
+
+	// OpRemAt (rapid part only): Remove of the entry open iterator #I would return next - on the real map that is the
+	// entry the iterator is parked on (pinned), unless that one was removed already (then the next live one goes).
+	// A no-op with no open iterator or with the iterator at the end. It makes "remove under a parked iterator" as
+	// likely on a map of hundreds of entries as it is on a map of three.
+	OpRemAt = "remat"
 )
 
 // MaxKeys bounds the key alphabet.
@@ -89,6 +95,11 @@ type Info struct {
 	MaxOpen          int
 	PeakLive         int  // largest number of live entries
 	DrainParked      int  // a Remove left <= a quarter of the peak (>= 16) live while an iterator was parked on a removed entry
+	DrainParkedMax   int  // largest number of iterators parked on removed entries at such a Remove
+	DrainParkedPeak  int  // largest peak (live entries) at such a Remove
+	QuietAfterDrain  int  // the last open iterator was closed after such a Remove, and the map was used (or the case ended) afterwards
+	RemAt            int  // effective "remat" ops
+	PostMortem       bool // structural mode: a functional divergence ended the case; the structure was still evaluated there and with every iterator closed
 	BulkOps          int  // bulk ops expanded
 	StepCap          bool // MaxSteps was reached: the rest of the list was not executed
 	Steps            int  // ops that were not no-ops
@@ -142,6 +153,24 @@ func (i Info) Classes() []string {
 		c = append(c, "live_entries_ge_1025")
 	}
 	add(i.DrainParked, "drained_to_quarter_of_peak_with_parked_iterator")
+	if i.DrainParked > 0 {
+		switch {
+		case i.DrainParkedMax >= 4:
+			c = append(c, "drained_with_ge_4_iterators_parked_on_removed")
+		case i.DrainParkedMax >= 2:
+			c = append(c, "drained_with_2_or_3_iterators_parked_on_removed")
+		default:
+			c = append(c, "drained_with_1_iterator_parked_on_removed")
+		}
+		if i.DrainParkedPeak >= 100 {
+			c = append(c, "drained_with_parked_iterator_from_peak_ge_100")
+		}
+	}
+	add(i.QuietAfterDrain, "all_iterators_closed_after_drain_with_parked_iterator")
+	add(i.RemAt, "remove_at_iterator_position")
+	if i.PostMortem {
+		c = append(c, "map_structure_evaluated_after_functional_divergence")
+	}
 	add(i.BulkOps, "bulk_ops_used")
 	if i.StepCap {
 		c = append(c, "step_cap_reached")
@@ -161,6 +190,7 @@ func (i Info) Classes() []string {
 type ent struct {
 	key  string
 	val  int
+	ki   int32 // index of key in the alphabet
 	live bool
 }
 
@@ -260,6 +290,7 @@ type runner struct {
 	nextID     int
 	mut        int // number of effective mutations of the live set
 	closedAny  bool
+	drained    bool // a drain with a parked iterator has happened and an iterator has been open ever since
 	step       int // index of the current op of the case
 	top        Op  // the current op of the case (possibly a bulk op)
 	sub        int // index of the single op inside a bulk op, -1 otherwise
@@ -267,6 +298,8 @@ type runner struct {
 	touched    int // key index used by the current single op, -1 if none
 	walkedAt   int // value of info.Steps at the last structural walk
 	phase      string
+	pm         string                      // set by postMortem: replaces where()
+	stray      iterable.Iterator[entryT] // scan: its iterator, while a functional verdict of the scan leaves it open
 	kbuf       [16]int
 	id         uint64 // number of this run (watchdog)
 }
@@ -330,6 +363,9 @@ func StartWatchdog(limit time.Duration, onHang func(c Case, structural bool, whe
 }
 
 func (r *runner) where() string {
+	if r.pm != "" {
+		return r.pm
+	}
 	if r.phase != "" {
 		return fmt.Sprintf("%s (after all %d ops, keys=%d)", r.phase, len(r.c.Ops), r.c.Keys)
 	}
@@ -356,6 +392,10 @@ func (r *runner) where() string {
 	case OpHas, OpNext, OpClose:
 		if n := len(r.its); n > 0 {
 			return pre + fmt.Sprintf("%s(iterator %d of %d open)", o.K, mod(o.I, n), n)
+		}
+	case OpRemAt:
+		if n := len(r.its); n > 0 {
+			return pre + fmt.Sprintf("remat(iterator %d of %d open) = Remove(%s)", mod(o.I, n), n, r.key(o.Key))
 		}
 	}
 	return pre + o.K
@@ -385,11 +425,47 @@ func Run(c Case, structural bool) (info Info, v *vstat.Violation) {
 	r.id = runCount
 	inFlight.Store(r)
 	v = vstat.Guard("map:panic", r.run)
-	inFlight.Store(nil)
 	if v != nil && v.Sig == "map:panic" {
 		v.Msg = "during " + r.where() + ": " + cleanStack(v.Msg)
 	}
+	if structural && v != nil && !Structural(v) && !info.NoHook {
+		// The functional oracle has spoken first (it is consulted before the walk at every step, and at
+		// every step while the walk of a big map is thinned out); that verdict belongs to C10. What C11
+		// asks - what does the map retain - is still decided here: at the point of the divergence and
+		// with every iterator closed. A panic of the post-mortem itself is no verdict.
+		func_ := v
+		if w := vstat.Guard("map:panic", func() *vstat.Violation { return r.postMortem(func_) }); Structural(w) {
+			v = w
+		}
+	}
+	inFlight.Store(nil)
 	return info, v
+}
+
+// postMortem: the structural invariants at a functional divergence v, then after every Close of the
+// iterators that are still open, then at quiescence (no iterator open: the list must hold exactly
+// the entries the history left live, and the index no more than the list).
+func (r *runner) postMortem(v *vstat.Violation) *vstat.Violation {
+	r.info.PostMortem = true
+	at := r.where()
+	stage := func(s string) { r.pm = fmt.Sprintf("%s, reached after the functional divergence %s at %s", s, v.Sig, at) }
+	if r.stray != nil { // the iterator of a scan that diverged
+		r.stray.Close()
+		r.stray = nil
+	}
+	stage("the point of the divergence")
+	if w := r.walk(); w != nil {
+		return w
+	}
+	for len(r.its) > 0 {
+		r.its[0].it.Close()
+		r.its = r.its[1:]
+		stage(fmt.Sprintf("Close of an open iterator (%d left open)", len(r.its)))
+		if w := r.walk(); w != nil {
+			return w
+		}
+	}
+	return nil
 }
 
 var (
@@ -607,7 +683,7 @@ func (r *runner) exec(op Op) (done bool, v *vstat.Violation) {
 				}
 			}
 		}
-		md.ents = append(md.ents, ent{key: k, val: val, live: true})
+		md.ents = append(md.ents, ent{key: k, val: val, ki: int32(ki), live: true})
 		md.nxt = append(md.nxt, int32(seq))
 		md.live.set(ki, seq)
 		if md.live.n > r.info.PeakLive {
@@ -642,14 +718,31 @@ func (r *runner) exec(op Op) (done bool, v *vstat.Violation) {
 			md.lastRem.set(ki, seq)
 			r.mut++
 			if p := r.info.PeakLive; p >= 16 && md.live.n <= p/4 {
+				np := 0
 				for _, it := range r.its {
 					if r.parked(it) {
-						r.info.DrainParked++
-						break
+						np++
 					}
+				}
+				if np > 0 {
+					r.info.DrainParked++
+					r.info.DrainParkedMax = max(r.info.DrainParkedMax, np)
+					r.info.DrainParkedPeak = max(r.info.DrainParkedPeak, p)
+					r.drained = true
 				}
 			}
 		}
+	case OpRemAt:
+		if len(r.its) == 0 {
+			return false, nil
+		}
+		n := md.nextLive(r.its[mod(op.I, len(r.its))].pos)
+		if n < 0 {
+			return false, nil
+		}
+		r.info.RemAt++
+		r.cur.Key = int(md.ents[n].ki) // for where()
+		return r.exec(Op{K: OpRem, Key: int(md.ents[n].ki)})
 	case OpGet:
 		r.noteUse()
 		r.touched = mod(op.Key, r.c.Keys)
@@ -805,6 +898,10 @@ func (r *runner) closeIt(i int) *vstat.Violation {
 	it.it.Close() // the error result is not specified: not judged
 	r.its = append(r.its[:i], r.its[i+1:]...)
 	r.closedAny = true
+	if len(r.its) == 0 && r.drained {
+		r.drained = false
+		r.info.QuietAfterDrain++
+	}
 	return nil
 }
 
@@ -922,6 +1019,9 @@ func (r *runner) walk() *vstat.Violation {
 		return vstat.V("map:struct-deleted-unpinned", "%s: more removed entries retained than iterators are open", desc())
 	case refSum != open:
 		return vstat.V("map:struct-refcount-sum", "%s: the reference counts must add up to the number of open iterators", desc())
+	case nodes-1-deleted != r.md.live.n:
+		// Len() is the map's own account; the history's account (the model) must give the same number of nodes
+		return vstat.V("map:struct-node-count-vs-history", "%s: the history leaves %d entries live, the list holds %d entries that are not marked removed", desc(), r.md.live.n, nodes-1-deleted)
 	}
 	return nil
 }
@@ -962,6 +1062,7 @@ func (r *runner) scan(sig string) *vstat.Violation {
 	if it == nil {
 		return vstat.V("map:iterator-nil", "%s: Iterator() returned nil", r.where())
 	}
+	r.stray = it // taken back below; a functional verdict leaves it open (postMortem closes it)
 	cnt := 0
 	for s := r.md.nextLive(0); s >= 0; s = r.md.nextLive(s + 1) {
 		want := r.md.ents[s]
@@ -980,6 +1081,7 @@ func (r *runner) scan(sig string) *vstat.Violation {
 	if e, ok := it.Next(); ok {
 		return vstat.V(sig, "%s: fresh iterator: Next() returned (%s=%d,true) after all %d live entries", r.where(), e.Key, e.Value, cnt)
 	}
+	r.stray = nil
 	if r.structural {
 		r.its = append(r.its, &iter{it: it, pos: len(r.md.ents)}) // counted as open by walk
 		v := r.walk()
